@@ -36,7 +36,7 @@ func TestMain(m *testing.M) { stats.Main(m) }
 func draw(t *rapid.T) sim.ChainCase {
 	g := sim.GenChain(t, sim.GenOpts{
 		Net:       sim.NetOpts{MaxForkHeight: rapid.SampledFrom([]int{3, 8, 16}).Draw(t, "forkSpan"), V2Only: rapid.IntRange(0, 2).Draw(t, "v2only") != 0},
-		MinBlocks: 10, MaxBlocks: 45, Reorgs: false, Profile: sim.Profile{Contracts: 1, MaxTxns: 8},
+		MinBlocks: 10, MaxBlocks: 45, Reorgs: false, StrayProofs: true, Profile: sim.Profile{Contracts: 1, MaxTxns: 8},
 		OnBlock: func(g *sim.Gen, b *sim.Builder) {
 			// many small payments early on grow the accumulator and spread later inputs over several trees
 			if rapid.IntRange(0, 2).Draw(g.T, "burst") == 0 {
